@@ -177,7 +177,7 @@ def corpus(rng, b=0):
     dec.append("".join(novel) + "[C][Ring1][Ring1]")
     dec.append("[C]" + "".join(reversed(novel)) + "[=C][F]")
     # themes are stratified over batch numbers (not drawn), so that every tier sees all of them
-    flood = b % 8 == 3
+    flood = (b % 12 == 3) if procs.TIER == "quick" else (b % 8 == 3)
     if flood:
         dec[0] = flood_string(rng, rng.choice((300, 530, 700)))
         dec[1] = flood_string(rng, rng.choice((300, 530)))
@@ -248,7 +248,7 @@ def gen_spec(base_seed, i, W):
         for j in range(rng.choice((1, 1, 2, 2, 3, 4) if procs.TIER == "quick" else (1, 2, 2, 3, 4, 6))):
             if rng.random() < p_dec:
                 x = rng.choice(dec)
-                if info["flood"] and rng.random() < (0.7 if j == 0 else 0.3):
+                if info["flood"] and rng.random() < (0.7 if j == 0 else 0.12):
                     x = dec[rng.randrange(2)]      # several flood calls per run: several cache overflows
                 old_syms = "expl]" in x or "_" in x or "[Expl" in x
                 call = ("decode", x, rng.random() < (0.85 if old_syms else 0.08), rng.random() < 0.3)
@@ -300,7 +300,7 @@ def gen_spec(base_seed, i, W):
             policy["salt"] = rng.randrange(1 << 20)
         policy["p"] = rng.choice((0.25, 1 / 8, 1 / 32, 1 / 128, 1 / 512))
         # bound the expected number of context switches per run (they dominate the cost): ~4000
-        budget_sw = 40000.0 if info["flood"] else 4000.0     # flood runs: the eviction race needs dense switching
+        budget_sw = 20000.0 if info["flood"] else 4000.0     # flood runs: the eviction race needs dense switching
         cap = (budget_sw if kind == "random" else budget_sw / 16) / max(total, 1)
         policy["p"] = min(policy["p"], cap)
     probes = []
